@@ -43,6 +43,11 @@ def unguard(nf, t, env):
         c, a = t[1][1], t[1][2]
         inner = nf.simplify(subst(t[2], t[1], a), env)
         return ("ite", c, inner, ("const", None))
+    # `f(T) if c else None` with T = (A if c else None), the guard taken once on the way in: under c, T is A
+    if isinstance(t, tuple) and t and t[0] == "ite" and t[3] == ("const", None):
+        from ..nf import _assume
+        inner = nf.simplify(_assume(t[2], t[1], True), env)
+        return ("ite", t[1], inner, ("const", None))
     return t
 
 
